@@ -21,10 +21,24 @@ class C08(Prop):
     assumptions = ['rows have the header\'s length; cells contain no lists (hashable, and == agrees with the Comparable '
                    'equivalence)']
 
-    def _call(self, opn, strict, pre, bs, ta, tb):
+    def _call(self, opn, strict, pre, bs, ta, tb, meta=None):
         import petl as etl
+        meta = meta or {}
         a = [list(r) for r in ta]
         b = [list(r) for r in tb]
+        if meta.get('via') == 'diff_added':          # diff(b, a)[0] = complement(a, b)   (a, b as in the case)
+            return etl.diff(b, a, buffersize=bs, strict=strict)[0]
+        if meta.get('via') == 'diff_subtracted':     # diff(a, b)[1] = complement(a, b)
+            return etl.diff(a, b, buffersize=bs, strict=strict)[1]
+        if meta.get('via') == 'recorddiff_subtracted':
+            return etl.recorddiff(a, b, buffersize=bs, strict=strict)[1]
+        if meta.get('mixed'):
+            # presorted inputs whose rows are lists on one side and tuples on the other
+            a = [list(r) for r in etl.sort(a)]
+            b = [tuple(r) for r in etl.sort(b)]
+            if meta['mixed'] == 'tl':
+                a, b = [tuple(r) for r in a], [list(r) for r in b]
+            pre = True
         if opn == 'complement':
             return etl.complement(a, b, presorted=pre, buffersize=bs, strict=strict)
         if opn == 'intersection':
@@ -65,6 +79,13 @@ class C08(Prop):
             rng.shuffle(perm)
             tb2 = (tuple(ta[0][i] for i in perm),) + tuple(tuple(r[i] for i in perm) for r in tb[1:])
             yield Case('setop', ('recordcomplement', rng.random() < 0.3, False, bs, ta, tb2))
+            # the same operators reached through diff / recorddiff, and with presorted inputs of mixed row types
+            st = rng.random() < 0.5
+            yield Case('setop', ('complement', st, False, bs, ta, tb), {'via': rng.choice(['diff_added', 'diff_subtracted'])})
+            yield Case('setop', ('recordcomplement', st, False, bs, ta, tb2), {'via': 'recorddiff_subtracted'})
+            mixed = rng.choice(['lt', 'tl'])
+            yield Case('setop', ('complement', st, False, None, ta, tb), {'mixed': mixed})
+            yield Case('setop', ('intersection', False, False, None, ta, tb), {'mixed': mixed})
         if tier == 'thorough':
             alpha = [(None, 0), (0, 'a'), (0, 0)]
             for na in range(0, 4):
@@ -80,7 +101,7 @@ class C08(Prop):
     def impl(self, case):
         opn, strict, pre, bs, ta, tb = case.arg
         try:
-            v = self._call(opn, strict, pre, bs, ta, tb)
+            v = self._call(opn, strict, pre, bs, ta, tb, case.meta)
         except Exception as e:
             return obs_exc(e)
         return obs_rows(v)
